@@ -39,6 +39,9 @@ pub enum Via {
     Arg,
     /// as Arg, but the argument belongs to a nested (subruledef) match
     NestedArg,
+    /// the path is a string constant declared in the file itself and the
+    /// call names the constant
+    ConstPath,
 }
 
 #[derive(Clone, Debug, PartialEq, Eq, Serialize, Deserialize)]
@@ -143,6 +146,11 @@ impl Case {
                         counter += 1;
                         match via {
                             Via::Direct => t.push_str(&format!("#d {}\n", call)),
+                            Via::ConstPath => {
+                                let quoted = format!("\"{}\"", esc(spelling));
+                                t.push_str(&format!("path{} = {}\n", k, quoted));
+                                t.push_str(&format!("#d {}\n", call.replacen(&quoted, &format!("path{}", k), 1)));
+                            }
                             Via::Rule => {
                                 defs.push_str(&format!("#ruledef\n{{\n    emit{} => {}\n}}\n", k, call));
                                 t.push_str(&format!("emit{}\n", k));
@@ -370,9 +378,9 @@ pub fn draw_case(rng: &mut Rng) -> Case {
                         Some("bits") => IncKind::Incbinstr,
                         _ => IncKind::Inchexstr,
                     };
-                    let via = if defs_path.is_some() { *rng.pick(&[Via::Direct, Via::Rule, Via::Fn, Via::AsmBlock, Via::Fn, Via::Arg, Via::NestedArg]) } else { Via::Direct };
+                    let via = if defs_path.is_some() { *rng.pick(&[Via::Direct, Via::Rule, Via::Fn, Via::AsmBlock, Via::Fn, Via::Arg, Via::NestedArg, Via::ConstPath]) } else { *rng.pick(&[Via::Direct, Via::Direct, Via::ConstPath]) };
                     let container = match via {
-                        Via::Direct | Via::Arg | Via::NestedArg => files[i].path.clone(),
+                        Via::Direct | Via::Arg | Via::NestedArg | Via::ConstPath => files[i].path.clone(),
                         _ => defs_path.clone().unwrap(),
                     };
                     let spelling = draw_spelling(rng, &container, &data[d].path, true, std_dir, clean);
@@ -437,12 +445,12 @@ pub fn range_case(kind: IncKind, n: usize, start: Option<usize>, len: Option<usi
     let dpath = "lib/data.dat".to_string();
     let mut files = vec![CFile { path: "main.asm".to_string(), once: false, items: vec![] }];
     let mut defs_path = None;
-    if via != Via::Direct {
+    if !matches!(via, Via::Direct | Via::ConstPath) {
         files.push(CFile { path: "lib/defs.asm".to_string(), once: true, items: vec![] });
         defs_path = Some("lib/defs.asm".to_string());
         files[0].items.push(Item::Include("lib/defs.asm".to_string()));
     }
-    let spelling = if matches!(via, Via::Direct | Via::Arg | Via::NestedArg) { "lib/data.dat".to_string() } else { "data.dat".to_string() };
+    let spelling = if matches!(via, Via::Direct | Via::Arg | Via::NestedArg | Via::ConstPath) { "lib/data.dat".to_string() } else { "data.dat".to_string() };
     files[0].items.push(Item::Marker(0x11));
     files[0].items.push(Item::IncFn { kind, spelling, start, len, via });
     files[0].items.push(Item::Marker(0x12));
@@ -624,7 +632,7 @@ pub fn run(ctx: &mut Ctx, _c: &Corpus) -> Vec<Replay> {
     out
 }
 
-pub const GRID_RUNS: u64 = 3 * 7 * 6;
+pub const GRID_RUNS: u64 = 3 * 7 * 7;
 
 /// Run index -> the slice of the exhaustive (kind, file length, container)
 /// grid it covers: every (start, len) in [0, n+2]^2, (start) alone and ().
@@ -634,7 +642,7 @@ pub fn range_grid_slice(run: u64) -> Option<Vec<Case>> {
     }
     let kind = [IncKind::Incbin, IncKind::Incbinstr, IncKind::Inchexstr][(run % 3) as usize];
     let n = ((run / 3) % 7) as usize;
-    let via = [Via::Direct, Via::Rule, Via::Fn, Via::AsmBlock, Via::Arg, Via::NestedArg][((run / 21) % 6) as usize];
+    let via = [Via::Direct, Via::Rule, Via::Fn, Via::AsmBlock, Via::Arg, Via::NestedArg, Via::ConstPath][((run / 21) % 7) as usize];
     let mut cases = Vec::new();
     cases.push(range_case(kind, n, None, None, via));
     for s in 0..=(n + 2) {
